@@ -133,6 +133,11 @@ def _check_carriers(site, pipe, doc, carriers, data_fn, seed, viol, case):
             viol.append({'site': site + ':document', 'case': case, 'carrier': carrier,
                          'observed': normal(doc2), 'expected': normal(doc)})
             return
+        diff = attrs_differ(pipe, pipe2)
+        if diff:
+            viol.append({'site': site + ':arguments', 'case': case, 'carrier': carrier, 'observed': diff[:3],
+                         'expected': 'the reloaded objects hold the constructor arguments of the original ones'})
+            return
         try:
             # several seeds: one draw of a small discrete value can coincide by chance in the two pipelines
             same = True
@@ -162,12 +167,69 @@ def _check_carriers(site, pipe, doc, carriers, data_fn, seed, viol, case):
             return
 
 
+def long_floats(v):
+    """the same value with a long decimal expansion (floats other than 0 and 1, also inside tuples / lists / dicts):
+    a persisted form that rounds or re-parses its numbers loses it"""
+    if isinstance(v, bool):
+        return v
+    if isinstance(v, float) and v not in (0.0, 1.0):
+        return v * (1.0 - 1.2345e-06)
+    if isinstance(v, tuple):
+        return tuple(long_floats(x) for x in v)
+    if isinstance(v, list):
+        return [long_floats(x) for x in v]
+    if isinstance(v, dict):
+        return {k: long_floats(x) for k, x in v.items()}
+    return v
+
+
 def transform_cases(rng, names, per_class):
     for name in names:
         cfgs = configurations(name)
         rng.shuffle(cfgs)
-        for kw in cfgs[:per_class]:
+        for i, kw in enumerate(cfgs[:per_class]):
             yield name, kw
+            kl = long_floats(kw)
+            if kl != kw:
+                yield name, kl
+
+
+def attrs_differ(a, b, path='pipeline'):
+    """the live objects of the original and of the reloaded pipeline: every persisted constructor argument that is kept
+    as an attribute of the same name holds the same value (floats within 1e-12 relative: un-biasing and re-biasing a
+    limit may move it by one unit in the last place)"""
+    def same(x, y):
+        if isinstance(x, (tuple, list)) and isinstance(y, (tuple, list)):
+            return len(x) == len(y) and all(same(p_, q_) for p_, q_ in zip(x, y))
+        if isinstance(x, dict) and isinstance(y, dict):
+            return set(x) == set(y) and all(same(x[k], y[k]) for k in x)
+        if isinstance(x, float) or isinstance(y, float):
+            try:
+                return abs(float(x) - float(y)) <= 1e-12 * max(1.0, abs(float(x)))
+            except Exception:  # noqa
+                return False
+        if isinstance(x, np.ndarray) or isinstance(y, np.ndarray):
+            return np.array_equal(x, y)
+        try:
+            return bool(x == y)
+        except Exception:  # noqa
+            return True
+    out = []
+    kids_a, kids_b = getattr(a, 'transforms', None), getattr(b, 'transforms', None)
+    if kids_a is not None and kids_b is not None and not isinstance(kids_a, dict):
+        for i, (x, y) in enumerate(zip(kids_a, kids_b)):
+            out += attrs_differ(x, y, '%s/%s[%d]' % (path, type(x).__name__, i))
+        return out
+    names = []
+    for getter in (lambda: list(a.get_transform_init_args_names()), lambda: list(a.get_transform_init_args().keys())):
+        try:
+            names = sorted(set(names) | set(getter()))
+        except Exception:  # noqa
+            pass
+    for nm in names + ['p', 'always_apply']:
+        if hasattr(a, nm) and hasattr(b, nm) and not callable(getattr(a, nm)) and not same(getattr(a, nm), getattr(b, nm)):
+            out.append('%s.%s: %r in the original, %r after the round trip' % (path, nm, getattr(a, nm), getattr(b, nm)))
+    return out
 
 
 def run(seed=0, tier='quick', hints=None, broken=False):
